@@ -618,7 +618,15 @@ func (w *world) kids(d int, allowEmpty bool) []*QN {
 	return out
 }
 
+// negMin2: 2*min for a negative minimum: -0.5, -1, -2, a large negative one.  Validate() accepts
+// them; the documented reading (and, since /repo 895ea25, BooleanSearcher) takes "at least min of
+// the should clauses" with min <= 0 as "optional" (a disjunction still needs one matching clause)
+var negMin2 = []int{-1, -2, -2, -4, -2000000}
+
 func (w *world) min2(n int) int {
+	if w.r.Chance(1, 5) {
+		return vrand.Pick(w.r, negMin2)
+	}
 	switch w.r.Intn(8) {
 	case 0, 1:
 		return 0
@@ -703,12 +711,12 @@ func (w *world) termTree(d int) *QN {
 		return &QN{K: "conj", Kids: kids(2)}
 	case 3, 4:
 		q := &QN{K: "disj", Kids: kids(2)}
-		q.Min2 = vrand.Pick(r, []int{0, 0, 2, 2, 1, 4})
+		q.Min2 = vrand.Pick(r, []int{0, 0, 2, 2, 1, 4, -1, -2, -4, -2000000})
 		return q
 	}
 	q := &QN{K: "boolean", HasMust: true, Must: kids(1)}
 	if r.Chance(1, 2) {
-		q.HasShould, q.Should, q.Min2 = true, kids(1), 0
+		q.HasShould, q.Should, q.Min2 = true, kids(1), vrand.Pick(r, []int{0, 0, 0, -1, -2, -4, -2000000})
 	}
 	if r.Chance(1, 2) {
 		q.HasMustNot, q.MustNot = true, kids(1)
@@ -869,7 +877,7 @@ func gen(f vh.Flags, r *vrand.R, emit func(In)) {
 		case 0, 1:
 			q = &QN{K: "conj", Kids: ks}
 		case 2:
-			q = &QN{K: "disj", Kids: ks, Min2: vrand.Pick(w.r, []int{0, 2})}
+			q = &QN{K: "disj", Kids: ks, Min2: vrand.Pick(w.r, []int{0, 2, -2})}
 		default:
 			q = &QN{K: "boolean", HasMust: true, Must: ks[:1], HasMustNot: true, MustNot: ks[1:]}
 		}
@@ -912,10 +920,10 @@ func gen(f vh.Flags, r *vrand.R, emit func(In)) {
 			case 0:
 				return &QN{K: "conj", Kids: []*QN{w.leafOn(field), w.leafOn(field)}}
 			case 1:
-				return &QN{K: "disj", Kids: []*QN{w.leafOn(field), w.leafOn(field), w.leaf()}, Min2: vrand.Pick(w.r, []int{0, 2, 4})}
+				return &QN{K: "disj", Kids: []*QN{w.leafOn(field), w.leafOn(field), w.leaf()}, Min2: vrand.Pick(w.r, []int{0, 2, 4, -1, -2, -4})}
 			case 2:
 				return &QN{K: "boolean", HasMust: true, Must: []*QN{w.leafOn(field)}, HasShould: true,
-					Should: []*QN{w.leafOn(field), w.leaf()}, Min2: vrand.Pick(w.r, []int{0, 0, 2})}
+					Should: []*QN{w.leafOn(field), w.leaf()}, Min2: vrand.Pick(w.r, []int{0, 0, 2, -1, -2, -4, -2000000})}
 			}
 			return w.leafOn(field)
 		}
@@ -964,8 +972,13 @@ func gen(f vh.Flags, r *vrand.R, emit func(In)) {
 		if w.r.Chance(1, 3) {
 			b.Should = append(b.Should, term(w.vocab[3]))
 		}
-		if w.r.Chance(1, 5) {
+		switch {
+		case w.r.Chance(1, 5):
 			b.Min2 = 2 * len(b.Should)
+		case w.r.Chance(1, 3):
+			// a negative minimum: the should clauses are optional, document 0 has to be returned
+			// (BooleanSearcher compared Min() with 0 exactly before /repo 895ea25)
+			b.Min2 = vrand.Pick(w.r, negMin2)
 		}
 		q := b
 		switch w.r.Intn(4) {
@@ -1250,7 +1263,7 @@ func genWide(r *vrand.R, engine string) In {
 		vrand.Shuffle(r, ws)
 		W = &QN{K: "match", F: fw, T: strings.Join(ws, " ")}
 	default:
-		W = &QN{K: "disj", Min2: vrand.Pick(r, []int{0, 0, 2, 2, 4})}
+		W = &QN{K: "disj", Min2: vrand.Pick(r, []int{0, 0, 2, 2, 4, -2, -4})}
 		for _, t := range wide {
 			W.Kids = append(W.Kids, term(fw, t))
 		}
@@ -1295,7 +1308,7 @@ func genWide(r *vrand.R, engine string) In {
 	case "mustnot+other":
 		q = &QN{K: "boolean", HasMust: true, Must: []*QN{S}, HasMustNot: true, MustNot: []*QN{other, W}}
 	case "should0":
-		q = &QN{K: "boolean", HasMust: true, Must: []*QN{S}, HasShould: true, Should: []*QN{W}, Min2: 0}
+		q = &QN{K: "boolean", HasMust: true, Must: []*QN{S}, HasShould: true, Should: []*QN{W}, Min2: vrand.Pick(r, []int{0, 0, -1, -2, -4, -2000000})}
 	case "conj":
 		q = &QN{K: "conj", Kids: []*QN{S, W}}
 		if r.Bool() {
@@ -1306,7 +1319,7 @@ func genWide(r *vrand.R, engine string) In {
 	case "filter":
 		q = &QN{K: "boolean", HasMust: true, Must: []*QN{S}, Filter: W}
 	case "should-only-mustnot":
-		q = &QN{K: "boolean", HasShould: true, Should: []*QN{S}, Min2: vrand.Pick(r, []int{0, 2}), HasMustNot: true, MustNot: []*QN{W}}
+		q = &QN{K: "boolean", HasShould: true, Should: []*QN{S}, Min2: vrand.Pick(r, []int{0, 2, -2, -4}), HasMustNot: true, MustNot: []*QN{W}}
 	case "nested": // the boolean one level down
 		in := &QN{K: "boolean", HasMust: true, Must: []*QN{S}, HasMustNot: true, MustNot: []*QN{W}}
 		if r.Bool() {
@@ -1516,7 +1529,7 @@ func genMergeAppend(r *vrand.R) In {
 	case "disj-of-conj":
 		q = &QN{K: "disj", Kids: []*QN{cj, wt("m")}}
 	case "must-conj+should":
-		q = &QN{K: "boolean", HasMust: true, Must: []*QN{cj}, HasShould: true, Should: []*QN{third}, Min2: 0}
+		q = &QN{K: "boolean", HasMust: true, Must: []*QN{cj}, HasShould: true, Should: []*QN{third}, Min2: vrand.Pick(r, []int{0, 0, -1, -2, -4})}
 	case "conj-nested":
 		q = &QN{K: "conj", Kids: []*QN{cj, third}}
 	default: // every document with the field, except the conjunction's
@@ -1545,7 +1558,7 @@ func enumerate() []*QN {
 		}
 		kids := append([]*QN{}, ks...)
 		out = append(out, &QN{K: "conj", Kids: kids})
-		for m := 0; m <= len(ks); m++ {
+		for m := -1; m <= len(ks); m++ { // min -1, 0, 1, ...
 			out = append(out, &QN{K: "disj", Kids: kids, Min2: 2 * m})
 		}
 		// boolean: every assignment of the children to must / should / must-not / filter
@@ -1557,7 +1570,7 @@ func enumerate() []*QN {
 					return
 				}
 				if q.HasShould {
-					for m := 0; m <= len(q.Should); m++ {
+					for m := -1; m <= len(q.Should); m++ { // min -1, 0, 1, ...
 						qq := q
 						qq.Min2 = 2 * m
 						out = append(out, &qq)
@@ -1951,7 +1964,7 @@ func main() {
 			"array values, numeric/date/bool fields; batches with updates and deletes) on scorch in-memory, scorch on-disk and upsidedown; " +
 			"half of the scorch cases on a non-default index configuration (kvconfig fieldTFRCacheThreshold 1 / 10 / 1000 as int or float64 = the term-field-reader recycle cache, unsafe_batch, numSnapshotsToKeep, persister nap and merge-plan options); " +
 			"read-only schedules (2-3 queries touching one field, searched in 2-3 rounds on the same index with no write in between, every search under the 8 option combinations, each answer judged by sem); " +
-			"random query trees to depth 4 over the whole family that pass Validate(); single leaves of every kind; term-only compounds and " +
+			"random query trees to depth 4 over the whole family that pass Validate() (disjunction / should minimums 0, 0.5, 1, 1.5, 2, ..., n and the negative ones -0.5, -1, -2, -1000000); single leaves of every kind; term-only compounds and " +
 			"single-posting terms in force-merged on-disk segments; directed stream 'wide disjunction under a sparse clause' (11-14 terms sharing a " +
 			"prefix spread over 14-24 documents in several segments, reached by prefix/wildcard/regexp/term-range/fuzzy/match-OR or an explicit " +
 			"11-14-way disjunction, used as must-not / should(min>=1) / filter / conjunct next to a clause matching 1-3 scattered documents; all " +
